@@ -467,6 +467,11 @@ def oracle_c09(c, out):
             pass
         # rounding envelope: each implicit solve can amplify a unit round-off by about T*||J||
         tol = max(1e-9, 1e-13 * amplification(m, s["final"])) * scale * nsteps
+        if tol > 1e-3 * scale:
+            # the a-priori envelope is itself a sizeable fraction of the sum (stiff problem, many steps, un-pivoted solves):
+            # nothing can be concluded from this run
+            c.tags.append("ill_conditioned_skipped")
+            continue
         if abs(after - before) > tol:
             return f"cell {cidx}: weighted sum w.y changed from {before!r} to {after!r} (w={w}; rounding envelope {tol:.2e})"
     return None
@@ -510,6 +515,9 @@ def grp_cross_config(a, b):
         return None     # exponential growth amplifies rounding differences beyond the estimate below
     n = max(1, sa["stats"]["steps"])
     rel = max(1e-9, 1e-13 * amplification(a.meta, sa["final"]))
+    if rel * n > 1e-3:
+        a.tags.append("ill_conditioned_skipped")
+        return None     # the envelope is no longer small against the values: nothing can be concluded
     for i, (u, v) in enumerate(zip(sa["y"], sb["y"])):
         if (u != u) and (v != v):
             continue
@@ -2399,6 +2407,10 @@ def grp_tightening(a, b):
     """a = loose tolerance, b = tight tolerance on the same problem: the error must not grow when the tolerance tightens"""
     ea, eb = max_rel_error_ab(a), max_rel_error_ab(b)
     if ea is None or eb is None: return None
+    # both already at the level of the tight tolerance (or of rounding): nothing left to tighten
+    if eb <= 10.0 * b.meta["rtol"] or eb <= 1e-9:
+        a.tags.append("tightening_already_at_tolerance")
+        return None
     if eb > ea + 1e-12:
         return (f"tightening the tolerances from rtol={a.meta['rtol']} to {b.meta['rtol']} made the result worse: relative error {ea:.3e} -> {eb:.3e} "
                 f"({a.meta['pname']}, L={a.meta['L']}, cells={a.meta['ncell']})")
